@@ -37,6 +37,13 @@ def enc_steps(steps):
 def enc_op(op):
     n = op[0]
     c = OPC[n]
+    # ("IoWrite", d1, d2) / ("IoRead", k1, k2): the same call through the PROVIDED vectored entry point with the slices
+    # [empty, d1, d2] / [empty, k1 bytes, k2 bytes]; std's default passes the first non-empty slice on, so the expected behaviour is
+    # that of ("IoWrite", d1) / ("IoRead", k1) (d1 / k1 non-empty by construction; otherwise the plain form is encoded)
+    if n == "IoWrite" and len(op) > 2 and len(op[1]) > 0:
+        return [26, len(op[1])] + list(op[1]) + [len(op[2])] + list(op[2])
+    if n == "IoRead" and len(op) > 2 and op[1] > 0:
+        return [27, op[1], op[2]]
     if n in ("ReadBytes", "TryReadBytes", "ReadCopy", "TryReadExact", "IoRead", "Deframe", "Wrote"):
         return [c, op[1]]
     if n in ("WriteBytes", "WriteStr", "IoWrite"):
@@ -405,6 +412,8 @@ def op_alphabet(b, rng, rich=True):
         ops += [("ReadCopy", n), ("TryReadExact", n), ("IoRead", n)]
         d = [97 + (i % 26) for i in range(n)]
         ops += [("WriteBytes", tuple(d)), ("IoWrite", tuple(d))]
+        if n > 0:     # the provided vectored entry points (see enc_op)
+            ops += [("IoWrite", tuple(d), (120,)), ("IoWrite", tuple(d), tuple([121] * max(b.ri, 1))), ("IoRead", n, 1), ("IoRead", n, b.size + 1)]
         ops += [("WritableWrote", tuple([65] * min(n, 6)), n)]
     ops += [("WriteStr", (104, 105)), ("WritableWrote", (66, 66), UMAX), ("WritableWrote", (), 1)]
     for which in range(0, 7):
@@ -452,6 +461,8 @@ def random_history(rng, size, maxlen, weights=None):
                 op = ("WriteStr", tuple(rbytes(rng, n, True)))
             elif kind < 0.65:
                 op = ("IoWrite", tuple(rbytes(rng, n)))
+                if n > 0 and rng.random() < 0.4:
+                    op = op + (tuple(rbytes(rng, rng.choice([1, 2, max(b.ri, 1), max(w - n, 1), w + 1]))),)
             elif kind < 0.85:
                 m = rng.choice([n, n, max(n - 1, 0), n + 1])
                 op = ("WritableWrote", tuple(rbytes(rng, min(m, 300))), n if valid else rng.choice([w + 1, UMAX, (U - b.wi) % U]))
@@ -478,6 +489,8 @@ def random_history(rng, size, maxlen, weights=None):
                 op = ("TryReadExact", min(n, 5000))
             else:
                 op = ("IoRead", min(n, 5000))
+                if 0 < n and rng.random() < 0.4:
+                    op = op + (rng.choice([1, 2, max(l - min(n, l), 1), l + 1]),)
         elif k < 0.70:
             op = ("Shift",)
         elif k < 0.73:
@@ -624,9 +637,9 @@ class ApiProp(Prop):
             yield mk_case(m["size"], m["ctor"], m["mem"], ops[:i] + ops[i + 1:], "shrunk")
         for i, op in enumerate(ops):
             if op[0] in ("WriteBytes", "IoWrite", "WriteStr") and len(op[1]) > 1:
-                yield mk_case(m["size"], m["ctor"], m["mem"], ops[:i] + [(op[0], op[1][:-1])] + ops[i + 1:], "shrunk")
+                yield mk_case(m["size"], m["ctor"], m["mem"], ops[:i] + [(op[0], op[1][:-1]) + tuple(op[2:])] + ops[i + 1:], "shrunk")
             if op[0] in ("ReadBytes", "TryReadBytes", "ReadCopy", "TryReadExact", "IoRead", "Wrote") and 1 < op[1] < 100000:
-                yield mk_case(m["size"], m["ctor"], m["mem"], ops[:i] + [(op[0], op[1] - 1)] + ops[i + 1:], "shrunk")
+                yield mk_case(m["size"], m["ctor"], m["mem"], ops[:i] + [(op[0], op[1] - 1) + tuple(op[2:])] + ops[i + 1:], "shrunk")
             if op[0] == "TryParse" and len(op[1]) > 1:
                 for j in range(len(op[1])):
                     yield mk_case(m["size"], m["ctor"], m["mem"], ops[:i] + [("TryParse", op[1][:j] + op[1][j + 1:], op[2])] + ops[i + 1:], "shrunk")
@@ -729,6 +742,8 @@ class C01(ApiProp):
                         got = dec_bytes(res, 1)[0] if res[0] == 1 else []
                     elif n == "IoRead":
                         got = dec_bytes(res, 2)[0][:res[1]] if res[0] == 0 else []
+                        if len(op) > 2 and res[0] == 0 and res[1] > op[1]:
+                            got = None      # a vectored read that also filled the second slice: only the first is in the trace
                     if got is not None and got != taken:
                         return "op %d %s handed out %r but consumed %r" % (i, fmt(op), got, taken)
                     if n == "ReadAll" and post:
@@ -741,7 +756,10 @@ class C01(ApiProp):
                     if n in ("WriteBytes", "WriteStr", "IoWrite"):
                         okd = res[0] == 0
                         # accepted bytes as told by the result: Ok(n) accepts the first n bytes (write_str: all)
-                        want = (list(op[1]) if n == "WriteStr" else list(op[1])[:res[1]]) if okd else []
+                        # (through the vectored entry point: the first n bytes of the slices taken together — what any Write
+                        # implementation may accept; which slices the PROVIDED method passes on is the model's business)
+                        offered = list(op[1]) + (list(op[2]) if n == "IoWrite" and len(op) > 2 else [])
+                        want = (list(op[1]) if n == "WriteStr" else offered[:res[1]]) if okd else []
                         if added != want:
                             return "op %d %s (result %r) appended %r, accepted bytes are %r" % (i, fmt(op), res, added, want)
                     elif n == "CopyOnce":
@@ -789,7 +807,18 @@ class C03(ApiProp):
                     return "op %d %s: len()/writable() panicked" % (i, fmt(op))
                 if b.len + b.wlen > size:
                     return "op %d %s: len() + writable().len() = %d > SIZE" % (i, fmt(op), b.len + b.wlen)
-                if n in ("WriteBytes", "WriteStr", "IoWrite"):
+                if n == "IoWrite" and len(op) > 2:
+                    # through the vectored entry point: Ok(m) moves exactly m <= total bytes, a refusal changes nothing and happens
+                    # only when the slices do not fit together (the provided method refuses when the first one does not fit)
+                    total = len(op[1]) + len(op[2])
+                    ok = res[0] == 0
+                    if ok and (res[1] > total or b.wlen != a.wlen - res[1] or b.len != a.len + res[1]):
+                        return "op %d vectored write accepted %d of %d bytes: writable %d -> %d, len %d -> %d" % (i, res[1], total, a.wlen, b.wlen, a.len, b.len)
+                    if not ok and total <= a.wlen:
+                        return "op %d vectored write of %d bytes refused with %d writable" % (i, total, a.wlen)
+                    if not ok and (b.wlen, b.len) != (a.wlen, a.len):
+                        return "op %d refused vectored write changed (len, writable) from %r to %r" % (i, (a.len, a.wlen), (b.len, b.wlen))
+                elif n in ("WriteBytes", "WriteStr", "IoWrite"):
                     k = len(op[1])
                     ok = res[0] == 0
                     if ok != (k <= a.wlen):
